@@ -209,6 +209,7 @@ def check_order(world, pipe, res, consumers=None):
     the consumer in start order) for synchronized sources; non-decreasing for ephemeral ones; content as published."""
     out = []
     last = {}
+    last_inc = {}
     pubidx = None
     for ev in world.clog:
         if ev['ev'] != 'process' or ev['ins'] is None:
@@ -258,10 +259,16 @@ def check_order(world, pipe, res, consumers=None):
             res.count('deliveries_ordered')
             if key in last:
                 if not eph and v <= last[key]:
-                    out.append(('duplicate' if v == last[key] else 'reorder',
-                                f'{cons} (incarnation {ev["inc"]}) got {tok["o"]}#{tok["oi"]} seq {v} after seq {last[key]}'))
+                    mech = 'duplicate' if v == last[key] else 'reorder'
+                    if mech == 'reorder' and last_inc.get(key) != ev['inc'] and pipe.nodes[cons]['config'].get('sources_balance'):
+                        # a restarted balanced joiner has no memory of what its predecessor was handed; a slower branch's older frame
+                        # is the first thing the new incarnation sees
+                        mech = 'reorder-across-balanced-joiner-restart'
+                    out.append((mech, f'{cons} (incarnation {ev["inc"]}) got {tok["o"]}#{tok["oi"]} seq {v} after seq {last[key]}' + (f' (handed to incarnation {last_inc.get(key)})' if last_inc.get(key) != ev['inc'] else '')))
                 elif eph and v < last[key]:
                     out.append(('ephemeral-reorder', f'{cons} got {tok["o"]} seq {v} after {last[key]} on an ephemeral source'))
+            if v >= last.get(key, v):
+                last_inc[key] = ev['inc']
             last[key] = max(v, last.get(key, v))
     return out
 
